@@ -80,7 +80,7 @@ __gmp_doprnt_mpf (const struct doprnt_funs_t *funs,
       /* arrange the fixed/scientific decision on a "prec" implied by how
          many significant digits there are */
       if (p->conv == DOPRNT_CONV_GENERAL)
-        MPF_SIGNIFICANT_DIGITS (prec, PREC(f), ABS(p->base));
+        MPF_SIGNIFICANT_DIGITS (prec, ABS(p->base), PREC(f));
     }
   else
     {
